@@ -460,9 +460,14 @@ def execute(case):
             elif kind == "memo_flush":
                 pi = op["patt"]
                 if pi < len(pool) and hasattr(pool[pi], "_cached_pattern_details"):
-                    pool[pi]._cached_pattern_details = None  # pylint: disable=protected-access
-                    out.fault("memo_flush")
-                    out.probe("memo_flush")
+                    # memo loss: the object gets back what a freshly constructed equal object has
+                    # in that attribute (None on the pinned tree; a sentinel after a refactoring);
+                    # a mutable placeholder would be aliased, so then nothing is done
+                    cold = getattr(pm.Perm(pperm[pi]), "_cached_pattern_details", None)
+                    if cold is None or type(cold) in (object, int, bool, str, tuple, frozenset):
+                        pool[pi]._cached_pattern_details = cold  # pylint: disable=protected-access
+                        out.fault("memo_flush")
+                        out.probe("memo_flush")
                     hist.log.add("memo_flush", pi)
             elif kind == "memo_prewarm":
                 pi = op["patt"]
